@@ -184,8 +184,7 @@ async def client_write_case(kind: str, msgs: list[bytes]) -> bytes:
     w = memstream.MemWriter()
     tr = make_transport(kind, memstream.new_reader(), w)
     for m in msgs:
-        n = await tr.write(m, timeout=1.0)
-        assert n == len(m)
+        await tr.write(m, timeout=1.0)  # the return value (a byte count) is not part of the statement
     return bytes(w.buffer)
 
 
